@@ -31,7 +31,12 @@ on `Model/CacheGlue.lean` (`cfgReal`):
              mode `own` (a fresh memo-bearing cache object per build: what the CLI passes), `default`
              (`options.Default.SharedCache`: one memo-less object per process), `none` (no cache), `off` (offline),
              `rev` the index revision the repository serves during the build, the keyring in request order, and
-             `fault` = `-` | `i` (the connection is cut inside the index body) | `<k>` (inside the body of key `k`)
+             `fault` = `-` | `i` (the connection is cut inside the index body) | `<k>` (inside the body of key `k`);
+             an optional fifth field lists the configured repositories (`0`, `0+1`; absent = `0`): repository `r` has
+             index URL and entry directory `50·r`; repository 1 (`https://repob.test`) serves ONE index revision (body and
+             ETag 200) that offers a newer `app`, so an image built over `0+1` is named `ok:<rev>b:…`
+* `opts`     (optional seventh field) `noetag`: the server sends no ETag for the index of repository 0 (only
+             `Last-Modified`): nothing is looked up or stored for it (`fetchNoEtag`)
 * `goDir`, `goOutcomes`, `goCwd`  the etag entries and temp files the real code left (tokens `E<dir>.<etag>=L<body>`,
              `T<dir>=<body|P>`), the outcome of every build (`ok:<rev>:<k>=<content>+…`, keys by number, or `err`),
              and whatever appeared in the working directories of the processes (must be nothing)
@@ -270,6 +275,7 @@ structure GBuild where
   rev : Nat
   keys : List Nat
   fault : String
+  repos : List Nat := [0]
 
 def parseKeys (s : String) : List GKey :=
   if s.isEmpty then [] else
@@ -280,15 +286,20 @@ def parseKeys (s : String) : List GKey :=
 
 def parseBuild (s : String) : Option GBuild :=
   match s.splitOn ":" with
-  | [m, r, ks, f] => some ⟨m, r.toNat!, if ks.isEmpty then [] else (ks.splitOn "+").map String.toNat!, f⟩
+  | [m, r, ks, f] => some ⟨m, r.toNat!, if ks.isEmpty then [] else (ks.splitOn "+").map String.toNat!, f, [0]⟩
+  | [m, r, ks, f, rs] => some ⟨m, r.toNat!, if ks.isEmpty then [] else (ks.splitOn "+").map String.toNat!, f,
+      if rs.isEmpty then [0] else (rs.splitOn "+").map String.toNat!⟩
   | _ => none
 
 def parseHistory (s : String) : List (List GBuild) :=
   if s.isEmpty then [] else
   (s.splitOn "|").map fun p => if p.isEmpty then [] else (p.splitOn ";").filterMap parseBuild
 
+/-- the index URL of repository `r` (its entry directory has the same number) -/
+def repoUrl (r : Nat) : Url := 50 * r
+
 def dirOfWorld (keys : List GKey) : Url → Dir := fun u =>
-  if u = 0 then 0 else ((keys[u - 1]?).map (·.dir)).getD 0
+  if u = 0 then 0 else if u % 50 = 0 then u else ((keys[u - 1]?).map (·.dir)).getD 0
 
 def sortNat (l : List Nat) : List Nat := l.mergeSort (fun a b => decide (a ≤ b))
 
@@ -298,19 +309,25 @@ def contentTok (r : Body × Bool) : String := if r.2 then toString r.1 else "P"
 
 /-- the outcome of a build from what its requests returned: an error of any request fails the build; the index
 must be complete (gzip trailer, signature) and the file of the signing key (key 0) must hold that key -/
-def outcomeOf (keys : List Nat) (kres : List Res) (ires : Res) : String :=
+def outcomeOfIdx (keys : List Nat) (kres : List Res) (idx : Option (List (Url × Body))) : String :=
   if kres.any (·.isNone) then "err" else
-  match ires with
+  match idx with
   | none => "err"
-  | some (_, false) => "err"
-  | some (ib, true) =>
-    let pairs := (keys.zip kres).filterMap fun (k, r) => r.map fun x => (k, contentTok x)
-    if pairs.any (fun p => p.1 = 0 && p.2 != "0") then "err" else
-    let sorted := (sortNat keys).filterMap fun k => (pairs.find? (·.1 = k)).map fun p => s!"{p.1}={p.2}"
-    s!"ok:{ib - 100}:" ++ "+".intercalate sorted
+  | some l =>
+    -- the resolver needs the index of repository 0 (base and lib are only there); repository 1 adds a newer app
+    match l.find? (·.1 = 0) with
+    | none => "err"
+    | some (_, ib) =>
+      let pairs := (keys.zip kres).filterMap fun (k, r) => r.map fun x => (k, contentTok x)
+      if pairs.any (fun p => p.1 = 0 && p.2 != "0") then "err" else
+      let sorted := (sortNat keys).filterMap fun k => (pairs.find? (·.1 = k)).map fun p => s!"{p.1}={p.2}"
+      s!"ok:{ib - 100}{if l.any (·.1 = repoUrl 1) then "b" else ""}:" ++ "+".intercalate sorted
 
-def identityOutcome (rev : Nat) (keys : List Nat) : String :=
-  s!"ok:{rev}:" ++ "+".intercalate ((sortNat keys).map fun k => s!"{k}={k}")
+def outcomeOf (keys : List Nat) (kres : List Res) (ires : Res) : String :=
+  outcomeOfIdx keys kres ((parseRes ires).map fun b => [(0, b)])
+
+def identityOutcome (rev : Nat) (keys : List Nat) (repos : List Nat := [0]) : String :=
+  s!"ok:{rev}{if repos.contains 1 then "b" else ""}:" ++ "+".intercalate ((sortNat keys).map fun k => s!"{k}={k}")
 
 /-- an offline build whose answer depends on the order in which earlier concurrent key downloads finished: it
 asks for a key whose entry directory is shared with another key (finding F19d) -/
@@ -328,30 +345,48 @@ structure GSim where
   nextCache : Nat := 1
   outs : List String := []
 
-def runBuild (cfg : Cfg) (world : List GKey) (sim : GSim) (b : GBuild) : GSim :=
+/-- the index requests of one online build, one repository after the other (distinct URLs, distinct entry
+directories): `none` when one of them fails -/
+def onlineIndexes (cfg : Cfg) (noetag : Bool) (c : CacheId) (memo : Bool) (cached : Bool) (cutA : Bool) :
+    List Nat → St → St × Option (List (Url × Body))
+  | [], st => (st, some [])
+  | r :: rest, st =>
+    let u := repoUrl r
+    let cut := cutA && r == 0
+    let x := if noetag && r == 0 then (let y := fetchNoEtag st u; (y.1, parseRes y.2))
+             else if cached then (let y := fetchIndex cfg st c memo u cut; (y.1, parseRes y.2))
+             else (let y := fetchIndexDirect st u; (y.1, parseRes y.2))
+    let t := onlineIndexes cfg noetag c memo cached cutA rest x.1
+    (t.1, match x.2, t.2 with
+          | some b, some l => some ((u, b) :: l)
+          | _, _ => none)
+
+def runBuild (cfg : Cfg) (world : List GKey) (noetag : Bool) (sim : GSim) (b : GBuild) : GSim :=
   -- the repository serves revision `rev` during this build
   let st := if sim.st.cur 0 = some (100 + b.rev, 100 + b.rev) then sim.st
             else step cfg sim.st (.publish 0 (100 + b.rev) (100 + b.rev))
   let cutOf := fun (k : Nat) => b.fault == toString k
   if b.mode == "none" then
     let kres := b.keys.map fun k => direct st (k + 1)
-    let r := fetchIndexDirect st 0
-    { sim with st := r.1, outs := sim.outs ++ [outcomeOf b.keys kres r.2] }
+    let r := onlineIndexes cfg noetag 0 false false false b.repos st
+    { sim with st := r.1, outs := sim.outs ++ [outcomeOfIdx b.keys kres r.2] }
   else if b.mode == "off" then
     let kres := b.keys.map fun k => fetchOffline cfg st (k + 1)
-    let out := if schedDependent world b then "sched" else outcomeOf b.keys kres (fetchOffline cfg st 0)
+    -- every configured repository is remote (https)
+    let idx := offlineIndexes skipReal cfg st (fun _ => true) (fun _ => .notExist) (b.repos.map repoUrl)
+    let out := if schedDependent world b then "sched" else outcomeOfIdx b.keys kres idx
     { sim with st := st, outs := sim.outs ++ [out] }
   else
     let (c, memo, next) := if b.mode == "default" then (0, false, sim.nextCache) else (sim.nextCache, true, sim.nextCache + 1)
     let (st1, kres) := fetchAll cfg c memo (b.keys.map fun k => (k + 1, cutOf k)) st
-    -- the keyring is initialised first (all entries are requested, concurrently); the index only after that
+    -- the keyring is initialised first (all entries are requested, concurrently); the indexes only after that
     if kres.any (·.isNone) then { st := st1, nextCache := next, outs := sim.outs ++ ["err"] }
     else
-      let r := fetchIndex cfg st1 c memo 0 (b.fault == "i")
-      { st := r.1, nextCache := next, outs := sim.outs ++ [outcomeOf b.keys kres r.2] }
+      let r := onlineIndexes cfg noetag c memo true (b.fault == "i") b.repos st1
+      { st := r.1, nextCache := next, outs := sim.outs ++ [outcomeOfIdx b.keys kres r.2] }
 
-def runProc (cfg : Cfg) (world : List GKey) (sim : GSim) (p : List GBuild) : GSim :=
-  let sim := p.foldl (runBuild cfg world) sim
+def runProc (cfg : Cfg) (world : List GKey) (noetag : Bool) (sim : GSim) (p : List GBuild) : GSim :=
+  let sim := p.foldl (runBuild cfg world noetag) sim
   { sim with st := step cfg sim.st .exit }
 
 def dirTokens (st : St) : List String :=
@@ -364,7 +399,7 @@ def initial (cfg : Cfg) (world : List GKey) : St :=
   (List.range world.length).foldl (fun st i =>
     match world[i]? with
     | some k => step cfg st (.publish (i + 1) k.etag i)
-    | none => st) {}
+    | none => st) (step cfg {} (.publish (repoUrl 1) 200 200))
 
 /-- the oracle on one etag entry of the real directory: it must hold exactly the body served under that ETag
 for a URL of that directory -/
@@ -374,7 +409,7 @@ def entryOk (world : List GKey) (t : String) : Bool :=
     | [de, kd] =>
       match de.splitOn "." with
       | [d, e] =>
-        if d == "0" then kd == s!"L{e}" && e != "?"
+        if d == "0" || d == "50" then kd == s!"L{e}" && e != "?"
         else (List.range world.length).any fun i =>
           match world[i]? with
           | some k => toString k.dir == d && toString k.etag == e && kd == s!"L{i}"
@@ -387,29 +422,37 @@ def entryOk (world : List GKey) (t : String) : Bool :=
 connection may fail instead); offline: an error, or what the model's offline build gives (`impls`; by
 `offline_authentic_partial` complete bodies the server served under the very URLs asked for) — where the
 model makes no prediction (`sched`) the cache-less image of a revision an earlier build brought into the cache -/
-def outcomesVerdict (builds : List GBuild) (outs impls : List String) : Option String :=
-  let rec go (bs : List GBuild) (os : List String) (ms : List String) (seen : List Nat) (i : Nat) : Option String :=
+def outcomesVerdict (noetag : Bool) (builds : List GBuild) (outs impls : List String) : Option String :=
+  let rec go (bs : List GBuild) (os : List String) (ms : List String) (seen : List Nat) (seenB : Bool) (i : Nat) : Option String :=
     match bs, os with
     | [], [] => none
     | b :: bs', o :: os' =>
-      let want := identityOutcome b.rev b.keys
+      let want := identityOutcome b.rev b.keys b.repos
       let m := ms.head?.getD "err"
       if b.mode == "off" then
-        if o == "err" || (m != "sched" && o == m && seen.any (fun r => o == identityOutcome r b.keys))
-            || (m == "sched" && seen.any (fun r => o == identityOutcome r b.keys)) then go bs' os' ms.tail seen (i + 1)
-        else some s!"build{i}:offline:{o}:want:err-or-{if m == "sched" then "cache-less-image-of-a-cached-revision" else m}"
+        -- the cache-less image of a repository state that earlier builds brought into the cache: an index revision of
+        -- repository 0 and, when repository 1 is configured, ITS index as well — never an image over fewer repositories
+        let cachedImage := (seenB || !b.repos.contains 1) && seen.any (fun r => o == identityOutcome r b.keys b.repos)
+        -- (whatever the keyring looks like: over a repository that was never cached the only legal outcome is an error)
+        if o != "err" && b.repos.contains 1 && !seenB then
+          some s!"repos:build{i}:offline:{o}:a-configured-remote-repository-was-never-cached:want:err"
+        else if o == "err" || (m != "sched" && o == m && cachedImage) || (m == "sched" && cachedImage) then go bs' os' ms.tail seen seenB (i + 1)
+        else some s!"build{i}:offline:{o}:want:err-or-{if m == "sched" then "cache-less-image-of-a-cached-revision" else if cachedImage then m else "the-image-over-all-configured-repositories"}"
       else
-        let seen' := if b.mode != "none" && b.fault != "i" then b.rev :: seen else seen
-        if o == want || (b.fault != "-" && o == "err") then go bs' os' ms.tail seen' (i + 1)
+        -- (an index that is served without an ETag is never stored)
+        let seen' := if b.mode != "none" && b.fault != "i" && !noetag then b.rev :: seen else seen
+        let seenB' := seenB || (b.mode != "none" && b.repos.contains 1)
+        if o == want || (b.fault != "-" && o == "err") then go bs' os' ms.tail seen' seenB' (i + 1)
         else some s!"build{i}:{b.mode}:{o}:want:{want}"
     | _, _ => some "outcome-count"
-  go builds outs impls [] 0
+  go builds outs impls [] false 0
 
-def handle (keys history goDir goOutcomes goCwd : String) : String :=
+def handle (keys history goDir goOutcomes goCwd : String) (opts : String := "") : String :=
   let world := parseKeys keys
   let procs := parseHistory history
+  let noetag := (opts.splitOn ",").contains "noetag"
   let cfg := cfgReal (dirOfWorld world)
-  let sim := procs.foldl (runProc cfg world) { st := initial cfg world }
+  let sim := procs.foldl (runProc cfg world noetag) { st := initial cfg world }
   let toks := (dirTokens sim.st).mergeSort (fun a b => decide (a ≤ b))
   let impl := ",".intercalate toks ++ "|" ++ ",".intercalate sim.outs
   let gtoks := if goDir.isEmpty then [] else goDir.splitOn ","
@@ -420,10 +463,11 @@ def handle (keys history goDir goOutcomes goCwd : String) : String :=
     else match gtoks.find? (fun t => !entryOk world t) with
       | some t => s!"fail:advertised-entry-is-not-the-body-served-under-its-etag:{t}"
       | none =>
-        match outcomesVerdict builds outs sim.outs with
+        match outcomesVerdict noetag builds outs sim.outs with
         | some w => "fail:" ++ w
         | none => "pass"
-  let cls := if builds.any (fun b => schedDependent world b || sameEtagPair world b) then "F19d" else "unlisted"
+  -- (a build over fewer repositories than configured has nothing to do with the key directories of F19d)
+  let cls := if builds.any (fun b => schedDependent world b || sameEtagPair world b) && !verdict.startsWith "fail:repos:" then "F19d" else "unlisted"
   impl ++ "\t" ++ verdict ++ "\t" ++ cls
 
 end Glue
@@ -431,6 +475,7 @@ end Glue
 def handle (args : List String) : Option String :=
   match args with
   | ["cache-glue", keys, history, goDir, goOutcomes, goCwd] => some (Glue.handle keys history goDir goOutcomes goCwd)
+  | ["cache-glue", keys, history, goDir, goOutcomes, goCwd, opts] => some (Glue.handle keys history goDir goOutcomes goCwd opts)
   | ["cache-seq", n, revs, builds, goState, goOutcomes] =>
     let revs := parseRevs revs
     let bs := if builds.isEmpty then [] else builds.splitOn ";"
